@@ -93,6 +93,11 @@ def gen_world(rng, profile=None):
         mech = mechs[rng.choice(['bev', 'bev', 'ice'] if not profile.get('bev_only') else ['bev'])]
         soc = rng.choice([0.001, 0.02, 0.5, 0.97, 1.0, round(rng.uniform(0.01, 1.0), 3)])
         vid = f'v{k}'
+        # nearly but not exactly full (inside the battery-full threshold, below capacity): the band where "is full" and "state of
+        # charge >= 1" differ.  Own stream.
+        rng2 = random.Random(f'nearly-full|{k}|{soc}|{t0}|{delta}')
+        if rng2.random() < 0.15:
+            soc = rng2.choice([0.9985, 0.999, 0.9995])
         driver = None
         if bases and rng.random() < 0.3:
             attr = HumanDriverAttributes(vid, 's1', rng.choice(bases).id, False)
